@@ -2750,9 +2750,12 @@ def compile_sql_as_unit_group(
                 unit.tx_id = tx_state.id
             case dbstate.TxAction.COMMIT:
                 ctx.state.commit_tx()
+                # commit_tx() / rollback_tx() replace the current transaction
+                tx_state = ctx.state.current_tx()
                 unit.tx_commit = True
             case dbstate.TxAction.ROLLBACK:
                 ctx.state.rollback_tx()
+                tx_state = ctx.state.current_tx()
                 unit.tx_rollback = True
             case dbstate.TxAction.DECLARE_SAVEPOINT:
                 assert sql_unit.sp_name is not None
